@@ -369,7 +369,7 @@ def stream_struct(tier, seed):
             for k in range(2 if not big else 1):
                 sfx = btc.rand_bytes(rng, rng.choice([1, 2, 5])) if k == 0 else b"\x00" * rng.choice([1, 4, 9])
                 lines.append(P("%s.x%d" % (gid, k), entry, b + sfx, param))
-            if len(b) < 1500 and g % 3 == 0:
+            if len(b) < 1500:
                 # a long extension: a decision that peeks at how many bytes follow shows up here
                 lines.append(P("%s.x2" % gid, entry, b + b"\x5a" * 600, param))
         if prefixes:
@@ -451,6 +451,16 @@ def stream_struct(tier, seed):
         group("block", b, fields, nb, tag="valid")
         for why, m in mutate(rng, b, fields, 3 if quick else 8):
             group("block", m, fields, nb, tag="mut:" + why, prefixes=(k % 4 == 0), maxbrk=6)
+    # blocks made of the smallest transactions the format allows (12-byte zero-input segwit, 51-byte one-input legacy
+    # without outputs): any estimate of "how many transactions can fit" is wrong for them
+    tiny_sw = {"version": 2, "ins": [], "outs": [], "segwit": True, "wits": [], "locktime": 0}
+    tiny_lg = btc.rand_tx(rng, nin=1, nout=0, segwit=False)
+    tiny_lg["ins"][0]["sig"] = b""
+    for ntx, kind in [(1, "sw"), (3, "sw"), (7, "sw"), (40, "sw"), (1, "lg"), (2, "lg"), (9, "lg"), (5, "mix")]:
+        txs = [dict(tiny_sw) if (kind == "sw" or (kind == "mix" and j % 2)) else dict(tiny_lg) for j in range(ntx)]
+        blk = {"header": btc.rand_header(rng), "txs": txs}
+        bb, bf = btc.block_bytes(blk)
+        group("block", bb, bf, 1 + sum(nbreak_tx(t) for t in txs), tag="tinytx", maxbrk=4)
     # defect at depth: bad varint inside the third output of the second transaction
     for k in range(6 * scale):
         blk = btc.rand_block(rng, ntx=3)
